@@ -15,8 +15,8 @@ def main(tier):
     # one case = one row: member a against every member b (pairs), every (b, c) of the sub-pool (triples), every b of the sub-pool (validator)
     c.run_family('plain', 'c08', 'pairs', env=env, per_case_timeout=10, chunk=max(1, n // 128))
     c.run_family('plain', 'c08', 'triples', env=env, per_case_timeout=30, chunk=max(1, (s + 15) // 16))
-    c.run_family('asan', 'c08', 'special', env=env)
-    c.run_family('asan', 'c08', 'unchecked', env=env, chunk=1)
+    c.run_family('plain' if quick else 'asan', 'c08', 'special', env=env)
+    c.run_family('asan', 'c08', 'unchecked', env=env)
     c.run_family('asan', 'c08', 'twins', env=env)
     c.run_family('plain' if quick else 'asan', 'c08', 'validator', env=env, per_case_timeout=30, chunk=max(1, s // 64))
     c.run_family('plain', 'c08', 'generator', env=env, per_case_timeout=120, chunk=max(1, s // 64))
@@ -31,7 +31,9 @@ def main(tier):
              'prefix {none, milli, kilo, 3, -2}, exponent {1, 2, -1, 0.5, 0}, multiplier {1, 1000, 0.25}: all 600 one-child definitions; all ordered pairs of a child menu '
              '(two children, both orders); nesting depth 1 and 2 over a fixed list of inner definitions; each as an imported units (Importer::addModel) and reached through an '
              'imported intermediate; one definition reaching the same imported units twice (imp*imp, two imports of it, import x local / imported intermediate using it, both orders); every built-in name as a childless object; parentless definitions over built-in references (%d members, %d reduction classes, kinds %s). '
-             'Judged: ALL %d ordered pairs of U (one evaluation = one row of %d pairs), ALL %d triples of a %d-member sub-pool holding every reduction class, every null/undefined/'
+             'Undefined arguments: null, 8 hand-listed kinds, and every sequence of 1..3 unit children over {dangling, 2-cycle member, self reference, nested dangling, unresolved import, '
+             'import of missing units | metre, user base unit, user units, resolved import} with at least one undefined child, direct / behind an intermediate / as imported library definition; '
+             'each against every sub-pool member, the hand-listed ones, null and itself in both orders (isDefined false, compatible false, factor 0, equivalent false). Judged: ALL %d ordered pairs of U (one evaluation = one row of %d pairs), ALL %d triples of a %d-member sub-pool holding every reduction class, every null/undefined/'
              'parentless argument against the sub-pool, every order/indirection twin, one validated two-component model per ordered pair of the sub-pool, and one analysed model with '
              'generated C executed per ordered pair of the sub-pool with equal reduction; '
              'distinct by construction (index -> definition is injective)' % (n, info['classes'], json.dumps(info['kinds'], sort_keys=True), n * n, n, s ** 3, s, ),
